@@ -141,14 +141,9 @@ def run(ctx):
             e = gr.call_expr(t, b)
             rng = A.peel(e[2][1])
             if A.path_str(e[2][0]) == label_path and rng[0] == "agg" and rng[1] == "std::ops::RangeFrom":
-                i = A.peel(dict(rng[3])["start"])
-                # i = (next(&mut into_iter(Range{0, len(labels)})) as Some).0
-                if i[0] == "field" and i[1][0] == "downcast" and i[1][1][0] == "call" and "range" in i[1][1][1] and i[1][1][1].endswith("::next"):
-                    it = A.peel(i[1][1][2][0])
-                    if it[0] == "agg" and it[1] == "std::ops::Range":
-                        d = dict(it[3])
-                        if A.peel(d["start"])[2] == 0 and bool(Call("Vec::<T, A>::len", Path(label_path))(d["end"])):
-                            okshape = True
+                coll = A.ascending_index_of(dict(rng[3])["start"])      # `for i in 0..labels.len()` or `labels.iter().enumerate()`
+                if coll is not None and A.path_str(coll) == label_path:
+                    okshape = True
         ctx.check(okshape, "C01.4", "%s:suffix-order" % A.short(key), "candidates are labels[i..] for i = 0, 1, .. (longest suffix first)",
                   "zone/nameserver candidates are not enumerated from the longest suffix", g.loc())
         # first hit returns from inside the loop
